@@ -270,6 +270,12 @@ module Pos =
        | Coq_xO q0 -> Npos (Coq_xI q0)
        | Coq_xH -> N0)
 
+  (** val shiftl : positive -> coq_N -> positive **)
+
+  let shiftl p = function
+  | N0 -> p
+  | Npos n0 -> iter (fun x -> Coq_xO x) p n0
+
   (** val iter_op : ('a1 -> 'a1 -> 'a1) -> positive -> 'a1 -> 'a1 **)
 
   let rec iter_op op p a =
